@@ -29,6 +29,11 @@ for t in tiers:
     base[prop][t] = sorted(o['name'] for o in obs)
     acc |= set(a[len('scanned: '):] for a in ev['assumptions'] if a.startswith('scanned: '))
 if saved_a and 'quick' not in tiers: acc |= set(saved_a)
+# re-read both files before writing: another mkbaseline (for a different property) may have finished meanwhile,
+# and dumping the copies loaded at start would silently discard its entries
+mine_b = base[prop]
+base = json.load(open(bp)); allow = json.load(open(ap))
+base[prop] = mine_b
 allow[prop] = sorted(acc)
 json.dump(base, open(bp, 'w'), indent=1, sort_keys=True)
 json.dump(allow, open(ap, 'w'), indent=1, sort_keys=True)
